@@ -165,6 +165,8 @@ def handleHydrate (line : String) : String :=
   if (line.splitOn "(keyed ").length > 1 then "unmodelled: Keyed under hydration (D17)" else
   -- NoSsr (a placeholder on the server, client-rendered children after mount) is judged by the oracle only
   if (line.splitOn "(nossr").length > 1 then "unmodelled: NoSsr" else
+  -- children built before the `NoHydrate` frame that holds them (keyed elements under a keyless one): oracle only
+  if (line.splitOn "(prenh ").length > 1 then "unmodelled: prebuilt children in a NoHydrate frame" else
   let parts := (line.splitOn " ").dropLast
   match parts.getLast?, parts.dropLast.getLast? with
   | some writes, some store =>
